@@ -29,6 +29,10 @@ type peer struct {
 	transitionCh [2]chan stateTransition
 	errorCh      [2]chan error
 
+	// error collected from an fsm that was stopped while reporting it
+	pendingErr    error
+	pendingErrFSM int
+
 	lastProtoError    *time.Time
 	startupDelay      time.Duration
 	startupDelayTimer *time.Timer
@@ -92,12 +96,23 @@ func (p *peer) disableFSM(i int) {
 		return
 	}
 	p.logTransition(i, p.fsmState[i], disabledState)
-	p.fsms[i].stop()
+	f := p.fsms[i]
+	f.stop()
 	p.fsms[i] = nil
 	p.fsmState[i] = disabledState
+	if f.unreportedErr != nil && p.pendingErr == nil {
+		// the fsm was stopped while reporting an error (e.g. it lost a
+		// collision right after a protocol error), handle it in run()
+		p.pendingErr = f.unreportedErr
+		p.pendingErrFSM = i
+	}
 }
 
 func (p *peer) sendTransitionToFSM(i int, t stateTransition) {
+	if p.dampPending() {
+		// both FSMs are about to be disabled
+		return
+	}
 	select {
 	case <-p.closeCh:
 		return
@@ -107,8 +122,15 @@ func (p *peer) sendTransitionToFSM(i int, t stateTransition) {
 	}
 }
 
+// dampPending reports whether an error collected from a stopped fsm is
+// waiting to damp the peer.
+func (p *peer) dampPending() bool {
+	var nerr *notificationError
+	return errors.As(p.pendingErr, &nerr) && nerr.dampPeer()
+}
+
 func (p *peer) enableFSM(i int, conn net.Conn) {
-	if i == out && p.options.passive {
+	if i == out && p.options.passive || p.dampPending() {
 		return
 	}
 	if p.fsms[i] == nil {
@@ -211,6 +233,8 @@ func (p *peer) handleError(i int, err error) {
 			p.disableFSM(out)
 			p.updateStartupDelay()
 			p.inHoldDown = true
+			// errors collected while disabling belong to this incident
+			p.pendingErr = nil
 		}
 	}
 }
@@ -249,6 +273,10 @@ func (p *peer) run() {
 	}()
 
 	for {
+		if err := p.pendingErr; err != nil {
+			p.pendingErr = nil
+			p.handleError(p.pendingErrFSM, err)
+		}
 		select {
 		case <-p.closeCh:
 			return
